@@ -14,7 +14,12 @@ class CommonSubexpressionEliminationPass(BlockPass):
             if isinstance(i, ir.Binop):
                 k = (i.a, i.operation, i.b, i.ty)
             elif isinstance(i, ir.Const):
-                k = (i.value, i.ty)
+                value = i.value
+                if isinstance(value, float):
+                    # 0.0 and -0.0 compare equal, but are not the same
+                    # constant (x / 0.0 versus x / -0.0)
+                    value = repr(value)
+                k = (value, i.ty)
             else:  # pragma: no cover
                 # This branch is actually covered, but is optimized by
                 # the python peep-hole optimizer!
